@@ -307,6 +307,74 @@ func extractFunctionFieldsChecked(f *ast.File) bool {
 	return seen["Arguments"] && seen["Throws"]
 }
 
+// CheckFunctions passes `false` for the arguments and `!f.Void` for the throws list as the last
+// argument of checkFunctionFields, which seeds ids[0] and names["success"] when it is true
+func extractThrowsCountSuccess(f *ast.File) bool {
+	fd := findFunc(f, "checker", "CheckFunctions")
+	cf := findFunc(f, "", "checkFunctionFields")
+	if fd == nil || cf == nil {
+		return false
+	}
+	argsFalse, throwsNotVoid := false, false
+	ast.Inspect(fd.Body, func(n ast.Node) bool {
+		ce, ok := n.(*ast.CallExpr)
+		if !ok || len(ce.Args) == 0 {
+			return true
+		}
+		if id, ok := ce.Fun.(*ast.Ident); !ok || id.Name != "checkFunctionFields" {
+			return true
+		}
+		which := ""
+		for _, a := range ce.Args {
+			if n := selName(a); n == "Arguments" || n == "Throws" {
+				which = n
+			}
+		}
+		last := ce.Args[len(ce.Args)-1]
+		switch which {
+		case "Arguments":
+			if id, ok := last.(*ast.Ident); ok && id.Name == "false" {
+				argsFalse = true
+			}
+		case "Throws":
+			if u, ok := last.(*ast.UnaryExpr); ok && u.Op == token.NOT && selName(u.X) == "Void" {
+				throwsNotVoid = true
+			}
+		}
+		return true
+	})
+	// the seeding: an `if <last parameter>` whose body assigns ids[0] and names["success"]
+	params := cf.Type.Params.List
+	if len(params) == 0 || len(params[len(params)-1].Names) == 0 {
+		return false
+	}
+	flag := params[len(params)-1].Names[len(params[len(params)-1].Names)-1].Name
+	seedsID, seedsName := false, false
+	ast.Inspect(cf.Body, func(n ast.Node) bool {
+		is, ok := n.(*ast.IfStmt)
+		if !ok {
+			return true
+		}
+		if id, ok := is.Cond.(*ast.Ident); !ok || id.Name != flag {
+			return true
+		}
+		for _, st := range is.Body.List {
+			as, ok := st.(*ast.AssignStmt)
+			if !ok || len(as.Lhs) != 1 {
+				continue
+			}
+			if ix, ok := as.Lhs[0].(*ast.IndexExpr); ok {
+				if lit, ok := ix.Index.(*ast.BasicLit); ok {
+					seedsID = seedsID || lit.Value == "0"
+					seedsName = seedsName || lit.Value == `"success"`
+				}
+			}
+		}
+		return true
+	})
+	return argsFalse && throwsNotVoid && seedsID && seedsName
+}
+
 // ResolveFunction calls ResolveConstValue inside the loop over Arguments and inside the loop over Throws
 func extractFunctionDefaultsResolved(f *ast.File) bool {
 	fd := findFunc(f, "resolver", "ResolveFunction")
@@ -432,6 +500,7 @@ func extract(repo string) error {
 	p("/-- CheckFunctions runs checkFunctionFields on the arguments and on the throws list -/\ndef functionFieldsChecked : Bool := %s\n\n", leanBool(extractFunctionFieldsChecked(ck)))
 	p("/-- ResolveFunction resolves the default values of arguments and of throws entries -/\ndef functionDefaultsResolved : Bool := %s\n\n", leanBool(extractFunctionDefaultsResolved(sm)))
 	p("/-- getEnum's recursion over typedefs is guarded by a visited set -/\ndef getEnumGuarded : Bool := %s\n\n", leanBool(extractGetEnumGuarded(sm)))
+	p("/-- checkFunctionFields counts field 0 `success` for the throws list of a non-void function, and only there -/\ndef throwsCountSuccess : Bool := %s\n\n", leanBool(extractThrowsCountSuccess(ck)))
 	p("def cfg : Cfg := ⟨checkOrder, unionSetsHasDefault, typeCats, handlePanicExits⟩\n\nend Generated.C04\n")
 	fmt.Print(w.String())
 	return nil
